@@ -210,8 +210,6 @@ def check_case(ctx, c):
 
     docs = c["docs"]
     e = c["estimator"]
-    if e in ("MultiSet",) and any(len(d) == 0 for d in docs):
-        docs = [d for d in docs if d] or [[docs[0][0]] if docs[0] else ["t0"]]
     if e == "Tree":
         docs = [d for d in docs if d]
     cc = dict(c, docs=docs)
